@@ -104,7 +104,7 @@ fn build_program(seed: u64) -> Vec<(usize, u8)> {
         a.b(&[0x05, 0x20]); let d = (top as isize - (a.pc as isize + 1)) as i8; a.b(&[d as u8]);
       },
       2 => { let k = rng.below(8) as usize; let t = 0x2000 + k * 0x40; a.b(&[0xcd, (t & 0xff) as u8, (t >> 8) as u8]); },
-      3 => { if ie != 0 && (tac & 4 != 0 || ie & 3 != 0) { a.b(&[0x76]); } else { a.b(&[0x00]); } },   // HALT only when something can wake it
+      3 => { if (ie & 1 != 0) || (ie & 4 != 0 && tac & 4 != 0) || (ie & 2 != 0 && stat != 0) { a.b(&[0x76]); } else { a.b(&[0x00]); } },   // HALT only when something can wake it
       4 => { a.b(&[0xcd, 0x80, 0xff]); },                     // OAM DMA through the HRAM routine
       5 => { a.b(&[0xcd, 0x00, 0xc1]); },                     // code in work RAM
       6 => {                                                  // bank switch from bank 0, then call banked code
